@@ -44,6 +44,7 @@ package arvados
 
 import (
 	"bufio"
+	"context"
 	"crypto/md5"
 	"encoding/hex"
 	"errors"
@@ -55,6 +56,7 @@ import (
 	"strconv"
 	"strings"
 	"sync"
+	"sync/atomic"
 	"testing"
 	"time"
 )
@@ -731,6 +733,321 @@ func verifC09Script(s string) (bits []bool, dflt bool, ok bool) {
 	return nil, false, false
 }
 
+// verifC09CG runs the REAL contextGroup and throttle under a schedule the driver imposes:
+//
+//	cg9 <cap> <n> <bg> <ev,ev,...|->
+//
+// n task funcs follow commitBlock's protocol (context check; Acquire; the Keep write; Release; return the
+// write's error). Events: s<i> = cg.Go(task i); c<i> = task i runs its context check and goes on into Acquire;
+// P / F = the oldest Keep write in flight is answered ok / fails (error "E<arrival number>"); X = the parent
+// context is cancelled; B = a background writer (bg slots are taken at the start) releases its slot; W =
+// cg.Wait() is called; at the end Wait is called if it was not. After every event the driver waits until the
+// event's consequences have happened (the task reached its gate / Keep / returned; the group's error was
+// recorded), so the outcome does not depend on goroutine timing; waits are bounded (30 s => "hang"). Only
+// negative observations ("f was not started", "Wait has not returned") use a short grace period: on a
+// conforming tree they cannot fail, a broken one gets 30 ms to show itself.
+//
+// Result: wait=<nil|E<k>|ctx|other|pending|early:<..>|hang>;arr=<writes that reached Keep>;skip=<ids>;
+// drop=<ids>;late=<ids started although an error was recorded>;fails=<n>;inuse=<len(throttle)>
+func verifC09CG(f []string) (out string) {
+	capn, e1 := strconv.Atoi(f[1])
+	n, e2 := strconv.Atoi(f[2])
+	bg, e3 := strconv.Atoi(f[3])
+	if e1 != nil || e2 != nil || e3 != nil || capn < 1 || bg < 0 || bg > capn || n < 0 || n > 64 {
+		return "bad-op"
+	}
+	var evs []string
+	if f[4] != "-" {
+		evs = strings.Split(f[4], ",")
+	}
+	const patience = 30 * time.Second
+	const grace = 30 * time.Millisecond
+	thr := newThrottle(capn)
+	for i := 0; i < bg; i++ {
+		thr.Acquire()
+	}
+	parent, pcancel := context.WithCancel(context.Background())
+	cg := newContextGroup(parent)
+	type answer struct {
+		ok bool
+		k  int
+	}
+	type arrival struct {
+		id  int
+		ans chan answer
+	}
+	arrivals := make(chan arrival, n+1)
+	marked := make(chan int, n+1)
+	skipped := make(chan int, n+1)
+	returned := make(chan int, n+1)
+	started := make([]chan struct{}, n)
+	gateA := make([]chan struct{}, n)
+	for i := range started {
+		started[i] = make(chan struct{})
+		gateA[i] = make(chan struct{})
+	}
+	var inflight int32
+	task := func(i int) func() error {
+		return func() error {
+			close(started[i])
+			<-gateA[i]
+			if err := cg.Context().Err(); err != nil {
+				skipped <- i
+				return err
+			}
+			marked <- i
+			thr.Acquire()
+			atomic.AddInt32(&inflight, 1)
+			a := arrival{i, make(chan answer, 1)}
+			arrivals <- a
+			ans := <-a.ans
+			atomic.AddInt32(&inflight, -1)
+			thr.Release()
+			returned <- i
+			if !ans.ok {
+				return fmt.Errorf("E%d", ans.k)
+			}
+			return nil
+		}
+	}
+	spawned := make([]bool, n)
+	opened := make([]bool, n)
+	var queue []arrival
+	var skipIDs, dropIDs, lateIDs []string
+	waiting, inUse, arr, fails, unfinished := 0, bg, 0, 0, 0
+	errSet, waitCalled := false, false
+	waitCh := make(chan error, 1)
+	hang := false
+	cleanup := func() {
+		pcancel()
+		cg.Cancel()
+		for i := range gateA {
+			if !opened[i] {
+				opened[i] = true
+				close(gateA[i])
+			}
+		}
+		go func() {
+			for {
+				select {
+				case a := <-arrivals:
+					a.ans <- answer{true, -1}
+				case <-time.After(2 * time.Second):
+					return
+				}
+			}
+		}()
+		for _, a := range queue {
+			a.ans <- answer{true, -1}
+		}
+		for i := 0; i < bg; i++ {
+			select {
+			case <-thr.c:
+			default:
+			}
+		}
+	}
+	defer cleanup()
+	errRecorded := func() bool {
+		deadline := time.Now().Add(patience)
+		for time.Now().Before(deadline) {
+			cg.mtx.Lock()
+			e := cg.err
+			cg.mtx.Unlock()
+			if e != nil {
+				return true
+			}
+			time.Sleep(200 * time.Microsecond)
+		}
+		return false
+	}
+	settle := func() {
+		for waiting > 0 && inUse < capn && !hang {
+			select {
+			case a := <-arrivals:
+				queue = append(queue, a)
+				waiting--
+				inUse++
+				arr++
+			case <-time.After(patience):
+				hang = true
+			}
+		}
+	}
+	callWait := func() {
+		if !waitCalled {
+			waitCalled = true
+			go func() { waitCh <- cg.Wait() }()
+		}
+	}
+	cls := func(err error) string {
+		switch {
+		case err == nil:
+			return "nil"
+		case err == context.Canceled:
+			return "ctx"
+		case strings.HasPrefix(err.Error(), "E"):
+			return err.Error()
+		}
+		return "other"
+	}
+	res := ""
+	// Wait returns as soon as it was called and every func handed to Go has finished: take its result then,
+	// so that a later parent cancel cannot change it
+	noteWait := func() {
+		if !waitCalled || res != "" || hang {
+			return
+		}
+		if unfinished > 0 {
+			select {
+			case err := <-waitCh:
+				res = fmt.Sprintf("early:%s:inflight%d", cls(err), atomic.LoadInt32(&inflight))
+			default:
+			}
+			return
+		}
+		select {
+		case err := <-waitCh:
+			res = cls(err)
+		case <-time.After(patience):
+			res = "hang"
+		}
+	}
+	for _, ev := range evs {
+		noteWait()
+		if hang {
+			break
+		}
+		num := -1
+		if len(ev) > 1 {
+			if v, err := strconv.Atoi(ev[1:]); err == nil {
+				num = v
+			}
+		}
+		switch {
+		case ev == "P" || ev == "F":
+			if len(queue) == 0 {
+				continue
+			}
+			a := queue[0]
+			queue = queue[1:]
+			ok := ev == "P"
+			// arrival numbers: the k-th write to reach Keep, counted from 0
+			a.ans <- answer{ok, arr - len(queue) - 1}
+			select {
+			case <-returned:
+			case <-time.After(patience):
+				hang = true
+				continue
+			}
+			inUse--
+			unfinished--
+			if !ok {
+				fails++
+				if !errSet {
+					if !errRecorded() {
+						hang = true
+						continue
+					}
+					errSet = true
+				}
+			}
+			settle()
+		case ev == "X":
+			pcancel()
+		case ev == "B":
+			if bg > 0 {
+				bg--
+				thr.Release()
+				inUse--
+				settle()
+			}
+		case ev == "W":
+			callWait()
+		case ev[0] == 's':
+			if num < 0 || num >= n || waitCalled || spawned[num] {
+				return "bad-op"
+			}
+			spawned[num] = true
+			expectDrop := errSet
+			cg.Go(task(num))
+			if expectDrop {
+				select {
+				case <-started[num]:
+					lateIDs = append(lateIDs, strconv.Itoa(num))
+					unfinished++
+				case <-time.After(grace):
+					dropIDs = append(dropIDs, strconv.Itoa(num))
+					opened[num] = true // nothing to open
+				}
+			} else {
+				select {
+				case <-started[num]:
+					unfinished++
+				case <-time.After(patience):
+					hang = true
+				}
+			}
+		case ev[0] == 'c':
+			if num < 0 || num >= n {
+				return "bad-op"
+			}
+			if !spawned[num] || opened[num] {
+				continue
+			}
+			opened[num] = true
+			close(gateA[num])
+			select {
+			case <-marked:
+				waiting++
+			case <-skipped:
+				skipIDs = append(skipIDs, strconv.Itoa(num))
+				unfinished--
+				if !errSet {
+					if !errRecorded() {
+						hang = true
+						continue
+					}
+					errSet = true
+				}
+			case <-time.After(patience):
+				hang = true
+			}
+			settle()
+		default:
+			return "bad-op"
+		}
+	}
+	noteWait()
+	if hang {
+		res = "hang"
+	} else if res == "" {
+		callWait()
+		if unfinished > 0 {
+			select {
+			case err := <-waitCh:
+				res = fmt.Sprintf("early:%s:inflight%d", cls(err), atomic.LoadInt32(&inflight))
+			case <-time.After(grace):
+				res = "pending"
+			}
+		} else {
+			noteWait()
+		}
+	}
+	j := func(l []string) string {
+		if len(l) == 0 {
+			return "-"
+		}
+		return strings.Join(l, ",")
+	}
+	sortNum := func(l []string) []string {
+		sort.Slice(l, func(a, b int) bool { x, _ := strconv.Atoi(l[a]); y, _ := strconv.Atoi(l[b]); return x < y })
+		return l
+	}
+	return fmt.Sprintf("wait=%s;arr=%d;skip=%s;drop=%s;late=%s;fails=%d;inuse=%d", res, arr, j(sortNum(skipIDs)),
+		j(sortNum(dropIDs)), j(sortNum(lateIDs)), fails, len(thr.c))
+}
+
 func verifC09Case(line string) (out string) {
 	defer func() {
 		if r := recover(); r != nil {
@@ -738,6 +1055,9 @@ func verifC09Case(line string) (out string) {
 		}
 	}()
 	f := strings.Split(line, " ")
+	if len(f) == 5 && f[0] == "cg9" {
+		return verifC09CG(f)
+	}
 	if len(f) != 6 || f[0] != "fs9" {
 		return "bad-op"
 	}
